@@ -182,6 +182,42 @@ func c01RunSequence(seq []c01Attempt) explore.Result {
 	return res
 }
 
+// c01RunAfterClose: Close only stops the accept loop; a connection accepted before it starts up afterwards. It is
+// asked for its password like any other (or closed): it never reaches the authenticated phase without credentials.
+func c01RunAfterClose(send string) explore.Result {
+	var res explore.Result
+	res.Outcome = "closing"
+	res.Key = "after-close " + send
+	calls := &c01Calls{rec: &script.Rec{}}
+	one, err := c01Server(calls, true)
+	if err != nil {
+		res.Engine = err.Error()
+		return res
+	}
+	if st := one.C.Await(); st != memnet.Parked { // the connection has been accepted and waits for its first packet
+		res.Engine = fmt.Sprintf("connection is %s before anything was sent", st)
+		return res
+	}
+	one.Server.Srv.Close()
+	msgs := pgproto.Startup("user", "alice")
+	switch send {
+	case "startup + query":
+		msgs = pgproto.Cat(msgs, pgproto.Query(progRows))
+	case "startup + wrong password + query":
+		msgs = pgproto.Cat(msgs, pgproto.Password("bad"), pgproto.Query(progRows))
+	}
+	out, _ := one.Step(msgs)
+	one.C.EOF()
+	one.C.AwaitClose()
+	k := harness.Kinds(out)
+	// (a ReadyForQuery directly behind the rejection error is tolerated here as everywhere in C01)
+	if strings.Contains(k, "S") || strings.Contains(k, "T") || strings.Contains(k, "C") || strings.Count(k, "R") > 1 || (strings.Contains(k, "Z") && !strings.Contains(k, "E")) || len(calls.rec.Evs) > 0 {
+		res.Fail("session-without-accepted-credentials", fmt.Sprintf("server closed, then %s on a connection accepted before: answered %q, callbacks %v (no credentials were accepted)", send, k, evKinds(calls.rec.Evs)))
+	}
+	res.Trans = []string{"closing|startup|password request or closed"}
+	return res
+}
+
 func c01Depth(tier string) int {
 	if tier == "thorough" {
 		return 4
@@ -439,6 +475,11 @@ func c01Run(startup int, l pwLetter, cont []contLetter, pipelined bool) explore.
 
 func c01Enumerate(tier string, emit explore.Emit) {
 	c01TLS(emit)
+	for _, send := range []string{"startup", "startup + query", "startup + wrong password + query"} {
+		send := send
+		emit(explore.Case{Family: "after-close", Size: 2, Desc: func() any { return map[string]any{"server_closed_then_client_sends": send} },
+			Run: func() explore.Result { return c01RunAfterClose(send) }})
+	}
 	attempts := []c01Attempt{{"db1", "alice", "good"}, {"db2", "alice", "good"}, {"db1", "bob", "good"}, {"db1", "alice", "bad"}, {"", "alice", "good"}}
 	forShapes(len(attempts), 3, func(sh []int) {
 		if len(sh) < 2 {
